@@ -101,8 +101,8 @@ def run(ctx: Ctx) -> None:
             if norm(n.ast) == f"{msgp}.done":
                 return ("done", True)
             t = n.ast
-            if isinstance(t, ast.Compare) and "CameraImageResponse" in norm(t) and isinstance(t.ops[0], (ast.Is, ast.Eq)):
-                return ("is_camera", True)
+            if isinstance(t, ast.Compare) and len(t.ops) == 1 and "CameraImageResponse" in norm(t) and isinstance(t.ops[0], (ast.Is, ast.Eq, ast.IsNot, ast.NotEq)):
+                return ("is_camera", isinstance(t.ops[0], (ast.Is, ast.Eq)))
             tl = table_lookup_atom(osm, n)
             if tl is not None:
                 return ("in_table", tl)
@@ -291,7 +291,7 @@ def handled_types(ctx: Ctx, w: Func) -> list[str] | None:
             v = ctx.sym.resolve_name(w.module.name, n.func.value.id)
             if isinstance(v, dict) and all(isinstance(k, Ref) and k.kind == "pb" for k in v):
                 out += [k.name for k in v]
-        if isinstance(n, ast.Compare) and isinstance(n.ops[0], (ast.Is, ast.Eq)):
+        if isinstance(n, ast.Compare) and isinstance(n.ops[0], (ast.Is, ast.Eq, ast.IsNot, ast.NotEq)):
             v = ctx.sym.eval(n.comparators[0], w.module.name)
             if isinstance(v, Ref) and v.kind == "pb":
                 out.append(v.name)
@@ -333,7 +333,8 @@ def callback_counts(ctx: Ctx, w: Func, bound: list[str]) -> None:
             if tl is not None:
                 s = s | {f"table={'T' if (label == 'true') == tl else 'F'}"}
             if "CameraImageResponse" in t:
-                s = s | {f"camera={'T' if label == 'true' else 'F'}"}
+                neg = isinstance(n.ast, ast.Compare) and len(n.ast.ops) == 1 and isinstance(n.ast.ops[0], (ast.IsNot, ast.NotEq))
+                s = s | {f"camera={'T' if (label == 'true') != neg else 'F'}"}
         return s
 
     facts = disjunctive(g, frozenset(), step)
